@@ -180,6 +180,7 @@ replace (
 	go.opentelemetry.io/collector/otelcol/otelcoltest => /repo/otelcol/otelcoltest
 	go.opentelemetry.io/collector/pdata => /repo/pdata
 	go.opentelemetry.io/collector/pdata/pprofile => /repo/pdata/pprofile
+	go.opentelemetry.io/collector/pdata/testdata => /repo/pdata/testdata
 	go.opentelemetry.io/collector/pipeline => /repo/pipeline
 	go.opentelemetry.io/collector/pipeline/xpipeline => /repo/pipeline/xpipeline
 	go.opentelemetry.io/collector/processor => /repo/processor
@@ -202,5 +203,3 @@ replace (
 	go.opentelemetry.io/collector/service => /repo/service
 	go.opentelemetry.io/collector/service/hostcapabilities => /repo/service/hostcapabilities
 )
-
-replace go.opentelemetry.io/collector/pdata/testdata => /repo/pdata/testdata
